@@ -388,7 +388,7 @@ func honestCase(r *vh.RNG, w *world, cp params.CaravelParams, number uint64) *ca
 	found := false
 	for ri := uint32(1); ri <= 6 && !found; ri++ {
 		for i, s := range w.specs {
-			if !s.online || s.kind() != int(params.KindChamber) {
+			if !s.online || s.kind() != int(params.KindChamber) || s.badMain {
 				continue
 			}
 			pp := proofPlan{key: s.key, seed: c.seedHdr.seed, role: stepProposal, index: ri}
